@@ -153,16 +153,30 @@ fn fix_everywhere<S: Serialize + serde::de::DeserializeOwned + PartialEq + std::
     }
     for one in [false, true] {
         let mut scratch = [0u8; 0];
-        let rd = crate::ops_io::SchedReader { data: plain.to_vec(), pos: 0, fault: None, rng: Rng::new(5), whole: !one, one };
+        let rd = crate::ops_io::SchedReader { data: plain.to_vec(), pos: 0, fault: None, rng: Rng::new(5), whole: !one, one, transient: false };
         match postcard::from_io::<S, _>((rd, &mut scratch[..])) {
             Ok((back, (rd, _))) if back == *v && rd.pos == plain.len() => {}
             other => return Some(format!("from_io with an empty scratch buffer: {:?}", other.map(|(b, _)| b).map_err(|e| crate::core_ops::err_name(&e)))),
         }
         let mut scratch = [0u8; 0];
-        let rd = crate::ops_io::EioR(crate::ops_io::SchedReader { data: plain.to_vec(), pos: 0, fault: None, rng: Rng::new(5), whole: !one, one });
+        let rd = crate::ops_io::EioR(crate::ops_io::SchedReader { data: plain.to_vec(), pos: 0, fault: None, rng: Rng::new(5), whole: !one, one, transient: false });
         match postcard::from_eio::<S, _>((rd, &mut scratch[..])) {
             Ok((back, _)) if back == *v => {}
             other => return Some(format!("from_eio with an empty scratch buffer: {:?}", other.map(|(b, _)| b).map_err(|e| crate::core_ops::err_name(&e)))),
+        }
+    }
+    // a reader that fails ONCE inside the field (a transient WouldBlock / TimedOut) and then carries on, with
+    // ample scratch space: read_exact fails, so decoding must fail - never an integer assembled around the gap
+    for k in 0..plain.len() {
+        let mut scratch = [0u8; 64];
+        let rd = crate::ops_io::SchedReader { data: [plain, &[0x5A; 24][..]].concat(), pos: 0, fault: Some(k), rng: Rng::new(5), whole: k % 2 == 0, one: false, transient: true };
+        if let Ok((back, _)) = postcard::from_io::<S, _>((rd, &mut scratch[..])) {
+            return Some(format!("from_io returned Ok({:?}) although the reader reported an error at byte {} of the field", back, k));
+        }
+        let mut scratch = [0u8; 64];
+        let rd = crate::ops_io::EioR(crate::ops_io::SchedReader { data: [plain, &[0x5A; 24][..]].concat(), pos: 0, fault: Some(k), rng: Rng::new(5), whole: k % 2 == 0, one: false, transient: true });
+        if let Ok((back, _)) = postcard::from_eio::<S, _>((rd, &mut scratch[..])) {
+            return Some(format!("from_eio returned Ok({:?}) although the reader reported an error at byte {} of the field", back, k));
         }
     }
     let mut framed = postcard::to_allocvec_cobs(v).ok()?;
